@@ -11,6 +11,21 @@ CLAIMED = {
             "Seeded search over interleavings (object-store-request granularity) of 2..4 real ObjectStoreMetadataClients with injected request failures (before/after effect) and delays; every catalog.json version ever written is checked to be exactly one model step of exactly one in-flight operation, with index/map agreement on every version. Sampling, not proof: the quantifier is all schedules x histories, which only a search can approach.",
             "Trusts object_store::memory::InMemory as the model of S3 conditional PUT; a lost response (fail-after-effect) may legitimately leave one applied version behind a failed call.",
             "DESIGN.md section 3 C02"),
+    "C14": ("split", "fault_enumeration",
+            "deterministic simulation with fault injection: systematic sweep failing / crashing the split at every object-store request (before and after its effect) followed by a fault-free resume driver, plus seeded nested interruptions; end-state, row-conservation and early-delete oracles",
+            "Real ShardSplitter (five phases, virtual 10 s / 300 s sleeps) on both catalog backends over generated old-shard datasets with rows below / at / above the split point. Sweep: one run per (request index of the fault-free split) x {fail before, fail after, crash before, crash after}; random: 2..3 nested interruptions also inside resumed runs. Driver: resume while a progress file exists, else restart if the old shard is still Active, <= 6 fault-free attempts with fresh clients. Oracle: two Active new shards partitioning the old range at the split point, old shard PendingDeletion, no split state, no progress file, every old row in exactly one new shard on the correct side, no old-shard file or catalog entry removed before complete_split took effect; a resume failing on every fault-free attempt is the violation 'cannot be resumed'.",
+            "Generation numbers, delete_after and clean-up leftovers are deliberately not compared; the in-memory catalog is treated as an external durable service.",
+            "DESIGN.md section 3 C14"),
+    "C04": ("query", "exploration",
+            "deterministic simulation on the virtual clock with a reference model: real ingest -> (compaction) -> QueryNode pipeline, generated finite-window SELECTs, same SQL on a MemTable of all rows as the oracle",
+            "Datasets placed minutes / hours / days around the virtual now and on hour-bucket edges, ingested through the real Ingester with drawn flush thresholds (different chunkings of the same rows), both catalogs, both timestamp types; 6..12 generated statements per run (both operand orders; integer, TIMESTAMP-literal and now()-relative bounds; BETWEEN, =, AND/OR/NOT nests, unions of windows, windows by negation, label predicates, projections, aggregates, GROUP BY), each cold and warm, before and after a real compaction cycle, tiny/large L1 cache, adaptive indexing on/off, primed or fresh node. Answer must equal the reference as a multiset of canonically rendered rows; an error or panic where the reference succeeds is a violation.",
+            "Schedule dimension is small (queries run one at a time; C10 covers concurrency): the simulator contributes the clock, the history (chunking, compaction, cache temperature) and the model; predicate shapes are seeded generation. Single-partition plans only.",
+            "DESIGN.md section 3 C04"),
+    "C10": ("query", "exploration",
+            "deterministic simulation: seeded interleaving of 2..4 concurrent QueryNode::query calls at every store request and at the pause point between table registration and planning; each answer compared with the reference evaluation of the same SQL",
+            "One real QueryNode over chunks in distinct eras so that different windows select different chunk sets; concurrent tasks issue projections / aggregates / GROUP BY over one, several or no eras; every concurrent answer must equal the same SQL on a MemTable of all rows (= the statement run alone).",
+            "The service's multi-thread runtime is replaced by interleaving at await points (store requests + one named pause point): the logical re-binding race is reachable, hardware-level races inside DataFusion are not.",
+            "DESIGN.md section 3 C10"),
     "C19": ("cluster", "exploration",
             "deterministic simulation: seeded membership/health/load histories on the virtual clock (real health-check task), route_write under a poll budget; eligibility, termination and assignment-stability oracles",
             "Real NodeRegistry + run_health_checks + ShardAssignment (all three strategies) + DistributedWriteRouter driven through generated histories (register, heartbeat loss, drain, load, remove, rebalance, time); every route_write must return within 1000 polls with a node whose snapshot can accept writes and that equals the assignment map's single entry, or an error; a shard may move only if its previous node cannot accept writes now or a rebalance ran since.",
